@@ -213,6 +213,35 @@ def run(ctx):
                     bad = {"issue": "liptak global p-value outside the double-precision bracket", "numerator": k, "bracket": [strict, loose]}
         if bad is not None:
             det.update(bad); ctx.violation("oracle", det, site="sim_npc")
+    # ------------------------------------------------------------------ a very large table (B * n past 2^20): exact integer oracle
+    for _big in range(ctx.n(1, 3)):
+        Bb, nb = ctx.rng.choice([(150001, 7), (262145, 4), (209716, 5)])
+        rs_ = np.random.RandomState(ctx.rng.randint(0, 2**31 - 1))
+        Db = rs_.randint(0, 50, size=(Bb, nb)).astype(float)
+        combn = ctx.rng.choice(["fisher", "tippett"])
+        # per-row counts k[r, j] = #{rows with a statistic >= this one} (p-value k / B): exact integers
+        K = np.empty((Bb, nb), dtype=np.int64)
+        for j in range(nb):
+            srt = np.sort(Db[:, j]); K[:, j] = Bb - np.searchsorted(srt, Db[:, j], side="left")
+        if combn == "fisher":      # larger statistic <=> smaller product of the counts (Python integers: no rounding)
+            prods = K[:, 0].astype(object)
+            for j in range(1, nb):
+                prods = prods * K[:, j].astype(object)
+            order_val = prods
+        else:                      # Tippett: larger statistic <=> smaller minimum count
+            order_val = K.min(axis=1).astype(object)
+        cand = [int(np.argmin(order_val)), int(np.argmax(order_val)), rs_.randint(0, Bb), rs_.randint(0, Bb)]
+        for r_ in cand[: (4 if ctx.thorough() else 2)]:
+            pv_ = K[r_] / Bb
+            rr = guarded(npc.npc, pv_.copy(), Db, combn, False, secs=120)
+            ctx.case(("huge-table", Bb, nb, combn, r_), True); ctx.count("npc-table-past-2^20-cells")
+            lo_ = int(np.sum(order_val < order_val[r_])) + 1; up_ = int(np.sum(order_val <= order_val[r_]))      # rows tied exactly may be split by rounding, the observed row counts itself
+            kk = None if rr[0] != "ok" else numerator_of(rr[1], Bb)
+            if kk is None or not (lo_ <= kk <= up_):
+                ctx.violation("oracle", {"call": "npc", "combine": combn, "plus1": False, "B": Bb, "n": nb, "observed_row": r_,
+                                         "table": "numpy RandomState(seed).randint(0, 50, (B, n)), seed drawn from the check's generator",
+                                         "issue": "on a very large table the global p-value is not the rank p-value of the observed row (which is a row of the table and must count itself)",
+                                         "returned": str(rr[1:])[:100], "numerator_bracket": [lo_, up_]}, site="npc")
     # ------------------------------------------------------------------ npc directly
     for _ in range(ctx.n(500, 8000)):
         reps, n, tv, ts, mode = gen_table(ctx)
